@@ -61,6 +61,7 @@ def check(ctx):
         ctx.guard("C10.c NO-STALE-READ", c.name, lambda c=c: check_stale_scorer(ctx, c), c.module.relpath)
     ctx.guard("C10.b REFIT-BEFORE-EVALUATE", "drivers", lambda: check_refit_and_mutation(ctx))
     ctx.guard("C10.d NO-ARG-MUTATION", "scorers", lambda: check_scorer_mutation(ctx))
+    ctx.guard("C10.d NO-ARG-MUTATION", "costs-fixed", lambda: check_cost_fixed_mutation(ctx))
     ctx.guard("C10.d NO-ARG-MUTATION", "detectors", lambda: check_detector_mutation(ctx))
     ctx.guard("C10.e UPDATE-IS-REFIT", "update", lambda: check_update(ctx, det_base))
     ctx.expect_min("C10.a HP-FROZEN", sum(1 for o in ctx.obs if o.rule == "C10.a HP-FROZEN" and o.status == "HOLDS"), 15)
@@ -409,6 +410,23 @@ def check_scorer_mutation(ctx):
             _mutation_report(ctx, paths, f"{name}.fit+evaluate", ctx.P.public_class(pkg, name).module.relpath)
 
         ctx.guard("C10.d NO-ARG-MUTATION", name, go)
+
+
+def check_cost_fixed_mutation(ctx):
+    """the fixed-parameter modes of the costs (other code paths in _fit and in the kernels)"""
+    from .c01 import PARAM_TABLE, scenario
+
+    for cls in ctx.P.registry("skchange.costs", "COSTS"):
+        tab = PARAM_TABLE.get(cls.name)
+        if tab is None:
+            continue
+        for mode in ("fixed-array", "fixed-number"):
+
+            def go(cls=cls, tab=tab, mode=mode):
+                ex, paths, state = scenario(ctx, cls, tab, mode)
+                _mutation_report(ctx, paths, f"{cls.name}[{mode}].fit+evaluate", cls.module.relpath)
+
+            ctx.guard("C10.d NO-ARG-MUTATION", f"{cls.name}|{mode}", go)
 
 
 def check_detector_mutation(ctx):
